@@ -20,7 +20,7 @@ Ortho(Q0rows, S) == TLCEval(Dot(TLCEval(ConstMat(Q0rows, Dof(S))), TLCEval(Cayle
 IsSkew(S) == Transp(S) = MScale(SConst(RInt(-1), Dof(S)), S)
 IsOrtho(Q) == Dot(Transp(Q), Q) = Ident(Q.shape[2], Dof(Q))
 Cols(A, c0, c1) == Mat(A.shape[1], c1 - c0, LAMBDA i, j : Elt(A, <<i, j + c0>>))
-IsUpper(R) == \A i \in 0..(R.shape[1] - 1) : \A j \in 0..(R.shape[2] - 1) : i > j => Elt(R, <<i, j>>) = SZero(Dof(R))
+IsUpper(U) == \A i \in 0..(U.shape[1] - 1) : \A j \in 0..(U.shape[2] - 1) : i > j => Elt(U, <<i, j>>) = SZero(Dof(U))
 IsLower(L) == IsUpper(Transp(L))
 DiagM(lams) == Mat(Len(lams), Len(lams), LAMBDA i, j : IF i = j THEN lams[i + 1] ELSE SZero(Len(lams[1])))
 \* lexicographic order on series (the order in which algopy returns eigenvalue series whose zeroth coefficients coincide)
